@@ -17,9 +17,12 @@ LEVEL = "proof"
 LEVEL_TEXT = ("Lean 4 theorem key_eq_iff: for all pairs of target states, the model's key (hash of a length-framed, sorted byte "
               "stream) is equal iff the states agree on label, command, set of (input path, content), output definitions, "
               "dependency digests, fingerprint map and platform — assuming only that the hash function is injective on the two "
-              "streams involved; plus order-independence and location-freedom lemmas. The byte stream of the model is tied to the "
-              "code by comparing real SHA-256 keys byte-for-byte on every run, and a model-independent pair oracle searches the real "
-              "code for collisions / spurious differences (boundary shifts, separators inside elements, permutations).")
+              "streams involved; plus order-independence and location-freedom lemmas, and the same for the digests that enter keys through "
+              "dependencies (output hash, no-cache output hash: nocache_outHash_inj, content digests). The byte stream of the model is tied to the "
+              "code by comparing real keys byte-for-byte on every run under both hash algorithms (the model carries its own SHA-256 and XXH3-128, "
+              "validated against the real hashers each run), and a model-independent pair oracle searches the real "
+              "code for collisions / spurious differences (boundary shifts, separators inside elements, permutations, weakened file frames, "
+              "block-permuted large files, workspace location, host environment).")
 LEVEL_NOTE = ("Trusted: Lean kernel; axioms propext/Classical.choice/Quot.sound; hash functions are parameters (collision resistance of "
               "xxh3-128/SHA-256 is not claimed); Lean SHA-256 and XXH3-128 implementations validated against crypto/sha256 and zeebo/xxh3 on every run; component "
               "lengths < 2^64; glob resolution and file reading (os.Open/Stat/io.Copy) outside the model; sampled correspondence.")
@@ -701,10 +704,19 @@ def _materialise(root, pkgs, files, fmt, shuffle_rng=None, toml=""):
             open(os.path.join(pdir, "BUILD.star"), "w").write(LL.render_starlark(d))
 
 
-def _keys_after_build(grog, wsdir, groot, algo):
+def _keys_after_build(grog, wsdir, groot, algo, host_env=None):
     import os, subprocess
     env = {k: v for k, v in os.environ.items() if not k.startswith("GROG_")}
     env.update({"GROG_ROOT": groot, "HOME": groot, "NO_COLOR": "1", "GROG_HASH_ALGORITHM": algo})
+    if host_env:
+        # another "host" and another time: host name, user, time zone, locale; every source file gets an old mtime
+        env.update(host_env)
+        for dp, _, fns in os.walk(wsdir):
+            for fn in fns:
+                try:
+                    os.utime(os.path.join(dp, fn), (86400 * 365 * 30, 86400 * 365 * 30))
+                except OSError:
+                    pass
     try:
         p = subprocess.run([grog, "build", "//..."], cwd=wsdir, env=env, capture_output=True, text=True, timeout=90)
     except subprocess.TimeoutExpired:
@@ -743,7 +755,9 @@ def cli_section(ctx):
             tag = fmt + ("-shuffled" if shuffle else "") + ":" + loc
             _materialise(os.path.join(base, tag.replace(":", "_").replace("/", "_"), loc), pkgs, files, fmt, rng if shuffle else None, toml)
             got, log2 = _keys_after_build(grog, os.path.join(base, tag.replace(":", "_").replace("/", "_"), loc),
-                                          os.path.join(base, tag.replace(":", "_").replace("/", "_"), "root"), algo)
+                                          os.path.join(base, tag.replace(":", "_").replace("/", "_"), "root"), algo,
+                                          host_env={"HOSTNAME": "otherhost", "USER": "someone", "LOGNAME": "someone", "TZ": "Asia/Tokyo", "LANG": "de_DE.UTF-8",
+                                                    "LC_ALL": "C", "TERM": "dumb"} if fmt == "yaml" or shuffle else None)
             runs += 1
             if got is None:
                 ctx.notes.append("cli variant build timed out: " + tag)
@@ -752,7 +766,7 @@ def cli_section(ctx):
             if got != ref:
                 ctx.violation("the same targets built from another checkout location / BUILD-file format / declaration order / worker count "
                               "are stored under different cache keys",
-                              {"kind": "oracle", "oracle": "CLI keys independent of location, format, order, workers", "variant": tag, "algo": algo,
+                              {"kind": "oracle", "oracle": "CLI keys independent of location, format, order, workers, host environment (HOSTNAME, USER, TZ, locale) and file mtimes", "variant": tag, "algo": algo,
                                "packages": pkgs, "files": files, "reference": {"rc": ref[0], "keys": ref[1]}, "variant_result": {"rc": got[0], "keys": got[1]},
                                "log": log2[-800:]}, signature="cli-key-depends-on:" + fmt + ("-shuffled" if shuffle else ""))
     # --- dependency identity: two dependencies with the same package-relative output swap contents -----------
